@@ -102,13 +102,19 @@ func hashBytes(b []byte) uint64 {
 }
 
 // digest over every token of length 0..maxlen over the alphabet (same order as Corr/RunC17.digest)
-func c17Digest(maxlen int) (d []uint64, panics []string) {
+func c17Digest(alphabet []byte, maxlen int) (d []uint64, panics []string, ofails []string) {
 	var ix, uok, uerr, usum, bok, berr, bsum, yok, yerr, ysum uint64
 	var rec func(n int, pre []byte)
 	leaf := func(tok []byte) {
 		ix++
 		w := ix % c17P
 		k, v := u64Obs(tok)
+		// direct oracle on every well-framed 0x-prefixed token "0x<digits>"
+		if n := len(tok); n >= 4 && tok[0] == '"' && tok[1] == '0' && tok[2] == 'x' && tok[n-1] == '"' && len(ofails) < 20 {
+			if ok, msg := u64Oracle(string(tok[3:n-1]), k, v); !ok {
+				ofails = append(ofails, fmt.Sprintf("Uint64 %s: %s", tok, msg))
+			}
+		}
 		switch k {
 		case "ok":
 			uok++
@@ -146,14 +152,14 @@ func c17Digest(maxlen int) (d []uint64, panics []string) {
 			leaf(pre)
 			return
 		}
-		for _, c := range c17Alphabet {
+		for _, c := range alphabet {
 			rec(n-1, append(pre[:len(pre):len(pre)], c))
 		}
 	}
 	for l := 0; l <= maxlen; l++ {
 		rec(l, nil)
 	}
-	return []uint64{ix, uok, uerr, usum, bok, berr, bsum, yok, yerr, ysum}, panics
+	return []uint64{ix, uok, uerr, usum, bok, berr, bsum, yok, yerr, ysum}, panics, ofails
 }
 
 func randDigits(r *lib.RNG, n int) string {
@@ -190,19 +196,33 @@ func runC17(cfg Cfg) error {
 		maxlen = 6
 	}
 
-	// (1) exhaustive token digest
-	d, panics := c17Digest(maxlen)
-	ds := make([]string, len(d))
-	for i := range d {
-		ds[i] = lib.CN(d[i])
+	// (1) exhaustive token digests: the property's alphabet up to maxlen, and (added
+	// as the LAST case, so that it lands in another shard) a smaller alphabet of
+	// frame and digit characters one symbol longer, which reaches tokens such as
+	// "0x0x" / "0x0x9" (a second prefix inside the digits)
+	digestCase := func(alphabet []byte, maxlen int) lib.Case {
+		d, panics, ofails := c17Digest(alphabet, maxlen)
+		ds := make([]string, len(d))
+		for i := range d {
+			ds[i] = lib.CN(d[i])
+		}
+		msg := ""
+		if len(panics) > 0 {
+			msg = fmt.Sprintf("%d panics on exhaustive tokens, first: %.40q", len(panics), panics[0])
+		} else if len(ofails) > 0 {
+			msg = fmt.Sprintf("%d exhaustive tokens violate the decoding rule, first: %s", len(ofails), ofails[0])
+		}
+		out.Notes[fmt.Sprintf("exhaustive_tokens_%d_symbols_len_%d", len(alphabet), maxlen)] = d[0]
+		return lib.Case{
+			Coq:  fmt.Sprintf("CDigest %s %s %s", lib.CBytes(alphabet), lib.CNat(maxlen), lib.CList(ds)),
+			Desc: map[string]any{"op": "digest", "alphabet": string(alphabet), "maxlen": maxlen, "impl_digest": d, "panics": panics, "oracle_failures": ofails},
+			Kind: "digest-exhaustive", Nontrivial: true, OracleOK: len(panics) == 0 && len(ofails) == 0,
+			OracleMsg: msg, Size: 1000000,
+		}
 	}
-	out.Add(lib.Case{
-		Coq:  fmt.Sprintf("CDigest %s %s %s", lib.CBytes(c17Alphabet), lib.CNat(maxlen), lib.CList(ds)),
-		Desc: map[string]any{"op": "digest", "alphabet": string(c17Alphabet), "maxlen": maxlen, "impl_digest": d, "panics": panics},
-		Kind: "digest-exhaustive", Nontrivial: true, OracleOK: len(panics) == 0,
-		OracleMsg: fmt.Sprintf("%d panics on exhaustive tokens, first: %.40q", len(panics), firstOr(panics, "")), Size: 1000000,
-	})
-	out.Notes["exhaustive_tokens"] = d[0]
+	out.Add(digestCase(c17Alphabet, maxlen))
+	smallAlphabet := []byte{'"', '0', 'x', 'X', '9', 'g'}
+	lastCase := digestCase(smallAlphabet, maxlen+2)
 
 	// (2) uint64 / byte spellings
 	for i := 0; i < nU; i++ {
@@ -446,6 +466,7 @@ func runC17(cfg Cfg) error {
 			Desc: map[string]any{"op": "bint.Decode", "len": len(b)}, Kind: "bint-decode", Nontrivial: len(b) >= 1,
 			OracleOK: ok, OracleMsg: "Decode differs from math/big low 64 bits", Size: len(b)})
 	}
+	out.Add(lastCase)
 	return out.Flush()
 }
 
